@@ -127,3 +127,80 @@ for cls in ("formulae.terms.variable.Variable", "formulae.terms.call.Call"):
                           f"implies(self.kind in {kinds} and not (self.value.ndim == 2 and self.value.shape[1] > 1), "
                           "len(result) == 1 and result[0] == self.name)"])
 FUNCTIONS += ["formulae.terms.variable.Variable.labels", "formulae.terms.call.Call.labels"]
+
+
+# ---- training-time coding of a categorical variable (C04, C15) --------------------------------
+REG.external_objects.update(pandas_m.external_objects_training())
+REG.sorted_model = pandas_m.sorted_unique
+REG.inline.add("formulae.categorical.Treatment.__init__")
+
+
+def rowval(x, r):
+    return x.iloc[r]
+
+
+def _rowval(I, a, kw, node):
+    from vf.pyvc.ops import int_term
+    from vf.pyvc.values import SOpaque
+    return SOpaque(pandas_m.series_val(a[0].t, int_term(a[1])), "any")
+
+
+def le(a, b):
+    return a <= b
+
+
+def _le(I, a, kw, node):
+    from vf.pyvc.ops import bool_val
+    from vf.pyvc.opaque import ufun, U
+    return bool_val(ufun("U!le", U(), U(), z3.BoolSort())(a[0].t, a[1].t))
+
+
+REG.externals[f"{__name__}.rowval"] = _rowval
+REG.externals[f"{__name__}.le"] = _le
+V = "formulae.terms.variable.Variable"
+REG.classes[V].field_types.update({"reference": "any", "_intermediate_data": "any"})
+IND = "(1 if rowval(x, r) == {lvl} else 0)"
+REG.contract(V + ".eval_categoric", params={"x": "series", "spans_intercept": "bool"}, tags=["C04", "C15", "C13", "C08"],
+             requires=["nrows(x) >= 1"],
+             modifies=["self.levels", "self.contrast_matrix", "self.value", "self.spans_intercept"],
+             raises={"ValueError": None},
+             ensures=["len(self.levels) >= 1",
+                      # levels are duplicate-free and every row value is one of them
+                      "forall(0, len(self.levels), lambda a: forall(0, len(self.levels), lambda b: implies(a != b, self.levels[a] != self.levels[b])))",
+                      "forall(0, nrows(x), lambda r: rowval(x, r) in self.levels)",
+                      # levels of data that is not an ordered categorical are sorted (independent of the row order)
+                      "implies(not (hasattr(x.dtype, 'ordered') and x.dtype.ordered), forall(0, len(self.levels), lambda a: "
+                      "forall(0, len(self.levels), lambda b: implies(a < b, le(self.levels[a], self.levels[b])))))",
+                      # y[level] as response: a single 0/1 column, 1 exactly where y equals the level
+                      "implies(self.is_response and self.reference is not None, self.value.ndim == 1 and self.value.shape[0] == nrows(x) and "
+                      "forall(0, nrows(x), lambda r: self.value[r] == " + IND.format(lvl="self.reference") + "))",
+                      # otherwise treatment coding: column j is the indicator of its level (first level dropped when reduced)
+                      "implies(not (self.is_response and self.reference is not None) and spans_intercept, "
+                      "self.value.shape[0] == nrows(x) and self.value.shape[1] == len(self.levels) and "
+                      "forall(0, nrows(x), lambda r: forall(0, len(self.levels), lambda j: self.value[r, j] == " + IND.format(lvl="self.levels[j]") + ")))",
+                      "implies(not (self.is_response and self.reference is not None) and not spans_intercept, "
+                      "self.value.shape[0] == nrows(x) and self.value.shape[1] == len(self.levels) - 1 and "
+                      "forall(0, nrows(x), lambda r: forall(0, len(self.levels) - 1, lambda j: self.value[r, j] == " + IND.format(lvl="self.levels[j + 1]") + ")))",
+                      "self.spans_intercept == spans_intercept"])
+FUNCTIONS += [V + ".eval_categoric"]
+ASSUMPTIONS = ASSUMPTIONS + ["pandas assumed (training): sorted(np.unique(x).tolist()) lists the distinct row values in increasing order; "
+                             "pd.Categorical(x).astype(CategoricalDtype(categories=L)).codes index into L; data that already is an ordered "
+                             "categorical has duplicate-free categories containing every row value (no missing values)"]
+
+CL = "formulae.terms.call.Call"
+REG.classes[CL].field_types.update({"_intermediate_data": "any", "call": "any", "env": "any"})
+REG.contract(CL + ".eval_categoric", params={"x": "series", "spans_intercept": "bool"}, tags=["C04", "C13", "C08"],
+             requires=["nrows(x) >= 1"],
+             modifies=["self.levels", "self.contrast_matrix", "self.value", "self.spans_intercept"],
+             raises={"ValueError": None},
+             ensures=["len(self.levels) >= 1",
+                      "forall(0, len(self.levels), lambda a: forall(0, len(self.levels), lambda b: implies(a != b, self.levels[a] != self.levels[b])))",
+                      "forall(0, nrows(x), lambda r: rowval(x, r) in self.levels)",
+                      "implies(not (hasattr(x.dtype, 'ordered') and x.dtype.ordered), forall(0, len(self.levels), lambda a: "
+                      "forall(0, len(self.levels), lambda b: implies(a < b, le(self.levels[a], self.levels[b])))))",
+                      "implies(spans_intercept, self.value.shape[0] == nrows(x) and self.value.shape[1] == len(self.levels) and "
+                      "forall(0, nrows(x), lambda r: forall(0, len(self.levels), lambda j: self.value[r, j] == " + IND.format(lvl="self.levels[j]") + ")))",
+                      "implies(not spans_intercept, self.value.shape[0] == nrows(x) and self.value.shape[1] == len(self.levels) - 1 and "
+                      "forall(0, nrows(x), lambda r: forall(0, len(self.levels) - 1, lambda j: self.value[r, j] == " + IND.format(lvl="self.levels[j + 1]") + ")))",
+                      "self.spans_intercept == spans_intercept"])
+FUNCTIONS += [CL + ".eval_categoric"]
